@@ -27,6 +27,7 @@ import (
 	"strings"
 	"sync"
 	"sync/atomic"
+	"syscall"
 	"time"
 
 	"github.com/LemoFoundationLtd/lemochain-core/chain/types"
@@ -462,6 +463,10 @@ type c08Image struct {
 	completed int // last promotion that had completed when the process died
 	inflight  int // promotion in flight (-1: none)
 	replay    map[string]interface{}
+	// candsOld >= 0: the image tests the atomic replacement of context.data only: the candidate list read
+	// back must be EXACTLY the list as of promotion candsOld or as of candsOld+1 (old or new file), and the
+	// workload is not continued on it
+	candsOld int
 }
 
 func c08RunChild(c *Ctx, img *c08Image, wl, H, upTo int) (*c08ChildOut, string) {
@@ -577,14 +582,111 @@ func c08CheckDump(c *Ctx, w *c08Workload, img *c08Image, d *c08Dump, phase strin
 				fail("c08/account-mismatch", fmt.Sprintf("stable block is %d but account data is not as of that block: %s", s, c08MapDiff(d.Accounts, w.Exp[s])))
 			}
 		}
-		if !c08MapEq(d.Cands, w.Cand[s]) {
+		if img.candsOld >= 0 {
+			if !c08MapEq(d.Cands, w.Cand[img.candsOld]) && !c08MapEq(d.Cands, w.Cand[img.candsOld+1]) {
+				fail("c08/candidates-mismatch", fmt.Sprintf("candidate list is neither the old one (as of %d) nor the new one: vs old %s", img.candsOld, c08MapDiff(d.Cands, w.Cand[img.candsOld])))
+			}
+		} else if !c08MapEq(d.Cands, w.Cand[s]) {
 			fail("c08/candidates-mismatch", fmt.Sprintf("stable %d: candidate list %s", s, c08MapDiff(d.Cands, w.Cand[s])))
 		}
 	}
 	return fails
 }
 
+// c08CtxProto: the file-system protocol RunContext was OBSERVED to follow (inotify on the data directory)
+type c08CtxProto struct {
+	InPlace      bool   // an existing context.data receives writes under its own name
+	EmptyVisible bool   // on the first start context.data is created under its final name before it is written
+	TmpName      string // name of the file that is renamed onto context.data ("" if none)
+	First, Again []string
+}
+
+func c08InotifyRun(dir string, f func()) []string {
+	fd, err := syscall.InotifyInit()
+	if err != nil {
+		panic("inotify: " + err.Error())
+	}
+	defer syscall.Close(fd)
+	_, err = syscall.InotifyAddWatch(fd, dir, syscall.IN_CREATE|syscall.IN_MODIFY|syscall.IN_MOVED_FROM|syscall.IN_MOVED_TO|syscall.IN_CLOSE_WRITE|syscall.IN_DELETE)
+	if err != nil {
+		panic("inotify watch: " + err.Error())
+	}
+	f()
+	syscall.SetNonblock(fd, true)
+	var evs []string
+	buf := make([]byte, 1<<16)
+	for {
+		n, err := syscall.Read(fd, buf)
+		if n <= 0 || err != nil {
+			break
+		}
+		for off := 0; off+syscall.SizeofInotifyEvent <= n; {
+			mask := binary.LittleEndian.Uint32(buf[off+4:])
+			nameLen := int(binary.LittleEndian.Uint32(buf[off+12:]))
+			name := strings.TrimRight(string(buf[off+syscall.SizeofInotifyEvent:off+syscall.SizeofInotifyEvent+nameLen]), "\x00")
+			off += syscall.SizeofInotifyEvent + nameLen
+			for _, m := range []struct {
+				bit uint32
+				s   string
+			}{{syscall.IN_CREATE, "create"}, {syscall.IN_MODIFY, "modify"}, {syscall.IN_MOVED_FROM, "moved-from"}, {syscall.IN_MOVED_TO, "moved-to"}, {syscall.IN_CLOSE_WRITE, "close-write"}, {syscall.IN_DELETE, "delete"}} {
+				if mask&m.bit != 0 {
+					evs = append(evs, m.s+":"+name)
+				}
+			}
+		}
+	}
+	return evs
+}
+
+func c08ObserveCtxProto(base string) *c08CtxProto {
+	dir := filepath.Join(base, "ctxproto")
+	os.MkdirAll(dir, 0755)
+	defer os.RemoveAll(dir)
+	p := &c08CtxProto{}
+	var rc *store.RunContext
+	p.First = c08InotifyRun(dir, func() { rc = store.NewRunContext(dir) })
+	p.Again = c08InotifyRun(dir, func() {
+		rc.SetCandidates([]*store.Candidate{{Address: c08Addr(200), Total: big.NewInt(5)}})
+		if err := rc.Flush(); err != nil {
+			panic("context flush: " + err.Error())
+		}
+	})
+	created := false
+	for _, e := range p.First {
+		if e == "create:context.data" {
+			created = true
+		}
+		if created && e == "modify:context.data" {
+			p.EmptyVisible = true
+		}
+	}
+	var from string
+	for _, e := range p.Again {
+		if e == "modify:context.data" {
+			p.InPlace = true
+		}
+		if strings.HasPrefix(e, "moved-from:") {
+			from = strings.TrimPrefix(e, "moved-from:")
+		}
+		if e == "moved-to:context.data" && from != "" {
+			p.TmpName = from
+		}
+	}
+	return p
+}
+
 func c08ChainOracle(c *Ctx, base string) {
+	proto := c08ObserveCtxProto(base)
+	{
+		kind := "inplace"
+		if !proto.InPlace && !proto.EmptyVisible && proto.TmpName != "" {
+			kind = "rename tmp-ignored"
+		}
+		// the model (Wal.lean, `ctxFlush`) is of the write-temp-then-rename protocol
+		c.Op("ctxproto", kind)
+		c.Count("ctxproto:" + strings.ReplaceAll(kind, " ", "-"))
+		c.Samples = append(c.Samples, "context.data first start: "+strings.Join(proto.First, " ")+" | re-flush: "+strings.Join(proto.Again, " "))
+	}
 	H := 3
 	nWl := 1
 	if c.Tier == "thorough" {
@@ -612,7 +714,7 @@ func c08ChainOracle(c *Ctx, base string) {
 		}
 		cont := c08Observe(db, w) // the never-stopped node
 		db.Close()
-		if f := c08CheckDump(c, w, &c08Image{name: "continuous node"}, cont, "no crash", H, H); len(f) > 0 {
+		if f := c08CheckDump(c, w, &c08Image{name: "continuous node", candsOld: -1}, cont, "no crash", H, H); len(f) > 0 {
 			c.Count("chain:continuous-node-inconsistent")
 		}
 
@@ -620,7 +722,7 @@ func c08ChainOracle(c *Ctx, base string) {
 		n := 0
 		newImg := func(from string, name, class, cause string, completed, inflight int) *c08Image {
 			n++
-			img := &c08Image{name: name, class: class, cause: cause, dir: filepath.Join(base, fmt.Sprintf("img%d_%d", wl, n)), completed: completed, inflight: inflight}
+			img := &c08Image{candsOld: -1, name: name, class: class, cause: cause, dir: filepath.Join(base, fmt.Sprintf("img%d_%d", wl, n)), completed: completed, inflight: inflight}
 			c08CopyDir(from, img.dir)
 			img.replay = map[string]interface{}{"level": "ChainDatabase", "workload": wl, "H": H, "seed": c.Seed, "crash_point": name}
 			images = append(images, img)
@@ -684,10 +786,16 @@ func c08ChainOracle(c *Ctx, base string) {
 					im.replay["batch_len"] = len(batch)
 				}
 			}
-			// context.data torn images (flush is the last step of promotion h): new head + old body
+			// context.data (flush is the last step of promotion h, after SetCurrentBlock). The crash points are
+			// derived from the file-system protocol the REAL code was observed to follow (inotify trace, c08CtxProto).
 			newCtx, _ := os.ReadFile(filepath.Join(snaps[h], "context.data"))
 			oldCtx, _ := os.ReadFile(filepath.Join(snaps[h-1], "context.data"))
-			if len(newCtx) != len(oldCtx) && len(oldCtx) >= 14 {
+			if !bytes.Equal(newCtx, oldCtx) {
+				// both protocols: pointer moved, flush not started yet -> the old file, complete
+				im := newImg(snaps[h], fmt.Sprintf("promotion %d: SetCurrentBlock executed, Context.Flush not started: context.data is still the file of promotion %d", h, h-1), "context-not-flushed", "pointer-moved-context-not-flushed", h, -1)
+				os.WriteFile(filepath.Join(im.dir, "context.data"), oldCtx, 0644)
+			}
+			if proto.InPlace && len(newCtx) != len(oldCtx) && len(oldCtx) >= 14 {
 				im := newImg(snaps[h], fmt.Sprintf("promotion %d: context.data rewritten in place, crash after the head write (new length %d, old body %d)", h, len(newCtx), len(oldCtx)), "context-head-only", "context-rewritten-in-place", h, -1)
 				mixed := append(append([]byte{}, newCtx[:14]...), oldCtx[14:]...)
 				os.WriteFile(filepath.Join(im.dir, "context.data"), mixed, 0644)
@@ -701,14 +809,43 @@ func c08ChainOracle(c *Ctx, base string) {
 					os.WriteFile(filepath.Join(im3.dir, "context.data"), newCtx[:cut], 0644)
 				}
 			}
+			if !proto.InPlace && proto.TmpName != "" && !bytes.Equal(newCtx, oldCtx) {
+				// write-temp-then-rename: a crash before the rename leaves the old file intact and the temp
+				// file in any state (absent is the image above); after the rename the new file is complete
+				// (= the snapshot itself, class "clean")
+				nslots := (len(newCtx) - 22) / 64
+				cuts := []int{0, 7, 14, 18, len(newCtx) / 2, len(newCtx)}
+				if nslots >= 1 {
+					cuts = append(cuts, 22+64*(nslots-1)+2)
+				}
+				for _, cut := range cuts {
+					if cut > len(newCtx) {
+						continue
+					}
+					im := newImg(snaps[h], fmt.Sprintf("promotion %d: crash before the rename: context.data = old file, %s = first %d of %d bytes of the new one", h, proto.TmpName, cut, len(newCtx)), "context-tmp-torn", "context-temp-file-left-behind", h, -1)
+					os.WriteFile(filepath.Join(im.dir, "context.data"), oldCtx, 0644)
+					os.WriteFile(filepath.Join(im.dir, proto.TmpName), newCtx[:cut], 0644)
+					im.candsOld = h - 1
+				}
+			}
 		}
-		// first start: context.data created, crash before its first Flush
+		// first start
 		fresh := filepath.Join(base, "fresh")
-		os.MkdirAll(fresh, 0755)
-		os.WriteFile(filepath.Join(fresh, "context.data"), nil, 0644)
-		imf := newImg(fresh, "first start: context.data created by createFile, crash before the first Flush", "context-empty", "context-created-not-flushed", -1, -1)
-		_ = imf
-		os.RemoveAll(fresh)
+		if proto.EmptyVisible {
+			// context.data is created under its final name and written afterwards: crash in between
+			os.MkdirAll(fresh, 0755)
+			os.WriteFile(filepath.Join(fresh, "context.data"), nil, 0644)
+			newImg(fresh, "first start: context.data created by createFile, crash before the first Flush", "context-empty", "context-created-not-flushed", -1, -1)
+			os.RemoveAll(fresh)
+		} else if proto.TmpName != "" {
+			// the file only ever appears by rename: crash before the first rename = no context.data, torn temp file
+			for _, cut := range []int{0, 9, 22} {
+				os.MkdirAll(fresh, 0755)
+				os.WriteFile(filepath.Join(fresh, proto.TmpName), make([]byte, cut), 0644)
+				newImg(fresh, fmt.Sprintf("first start: crash before the first rename: no context.data, %s holds %d bytes", proto.TmpName, cut), "context-first-tmp", "context-temp-file-left-behind", -1, -1)
+				os.RemoveAll(fresh)
+			}
+		}
 
 		// run the children (4 at a time)
 		type result struct {
@@ -730,7 +867,11 @@ func c08ChainOracle(c *Ctx, base string) {
 					os.RemoveAll(img.dir)
 					return
 				}
-				o, die := c08RunChild(c, img, wl, H, H)
+				upTo := H
+				if img.candsOld >= 0 {
+					upTo = -1
+				}
+				o, die := c08RunChild(c, img, wl, H, upTo)
 				if o == nil && strings.Contains(die, "timeout (hang)") {
 					atomic.AddInt32(&hangs, 1)
 				}
